@@ -148,7 +148,10 @@ def check_chunk(ctx, cases, obs, base):
                         ctx.violation("listw:%s:unrepresentable-accepted-and-misread:%s" % (vclass, "+".join(whys)),
                                       "list %s read back %s, meaning %s; %s" % (bad[0], json.dumps(bad[1])[:300], json.dumps(meaning)[:300], where), case, run)
                 else:
-                    note_drift(ctx, {"where": "accepted-ambiguous-but-read-back-equal", "why": whys, "vclass": vclass})
+                    # accepted although the encoding cannot carry it; the entry happens to read back as
+                    # nothing / the same, but the property demands an error (and gimli gives one)
+                    ctx.violation("listw:%s:accepted:%s" % (vclass, "+".join(whys)),
+                                  "the writer accepted a list the chosen encoding cannot represent (%s) instead of returning an error; %s" % (whys, where), case, run)
                 continue
             if not faithful:
                 fam = case["lists"][bad[0]]["fam"] if bad[0] >= 0 else "?"
@@ -225,8 +228,8 @@ def run(ctx):
         "entries the reader filters (empty after resolution, begin in the tombstone zone) are therefore absent on both sides",
         "the categories the property names (empty ranges, offset pairs without / address pairs with a base address, default location) are demanded "
         "to be rejected in the pair format (v2-4) only: the v5 encoding represents them unambiguously and gimli writes them",
-        "other unrepresentable entries (value does not fit the address size, begin + length leaves the address space, first word equal to the all-ones "
-        "base-address marker) are reported only when the write succeeds AND the read-back differs from the meaning; accepted-but-harmless cases are drift",
+        "other unrepresentable entries (value does not fit the address size, begin + length leaves the address space or u64, first word equal to the all-ones "
+        "base-address marker) must be rejected as well, whether or not the emitted bytes happen to read back as the list's meaning",
         "error kinds, exact section bytes and offsets are compared with the model as drift, not as violations",
         "location expressions are raw byte strings optionally ending with DW_OP_call4 / DW_OP_call_ref to the root or a child DIE (also forward); "
         "the expected operand is the DIE offset of the unit layout the model assumes, which must equal the offsets gimli reports for the DIEs read back",
